@@ -2826,6 +2826,30 @@ static Node *struct_ref(Node *node, Token *tok) {
 // Convert A++ to `(typeof A)((A += 1) - 1)`
 static Node *new_inc_dec(Node *node, Token *tok, int addend) {
   add_type(node);
+
+  // `(A += n) - n` recovers the old value of A only if the addition is
+  // exact and invertible. It is neither for _Bool nor for floating
+  // types, so save the old value for those:
+  // `tmp = &A, old = *tmp, *tmp = old + n, old`
+  if ((node->ty->kind == TY_BOOL || is_flonum(node->ty)) && !node->ty->is_atomic) {
+    Obj *ptr = new_lvar("", pointer_to(node->ty));
+    Obj *old = new_lvar("", node->ty);
+
+    Node *expr1 = new_binary(ND_ASSIGN, new_var_node(ptr, tok),
+                             new_unary(ND_ADDR, node, tok), tok);
+    Node *expr2 = new_binary(ND_ASSIGN, new_var_node(old, tok),
+                             new_unary(ND_DEREF, new_var_node(ptr, tok), tok), tok);
+    Node *expr3 = new_binary(ND_ASSIGN,
+                             new_unary(ND_DEREF, new_var_node(ptr, tok), tok),
+                             new_add(new_var_node(old, tok), new_num(addend, tok), tok),
+                             tok);
+
+    return new_binary(ND_COMMA, expr1,
+                      new_binary(ND_COMMA, expr2,
+                                 new_binary(ND_COMMA, expr3, new_var_node(old, tok), tok),
+                                 tok),
+                      tok);
+  }
   return new_cast(new_add(to_assign(new_add(node, new_num(addend, tok), tok)),
                           new_num(-addend, tok), tok),
                   node->ty);
